@@ -581,6 +581,7 @@ SMALL = {"quick": ["small13", "small199"], "thorough": ["small13", "small199"]}
 FULL = {"quick": ["prod"], "thorough": ["prod", "int64", "struct"]}
 # the sanitizer build runs Python itself under ASan (Hypothesis generation is ~10x slower there): separate, smaller budgets
 VSAN = {"quick": ["vsan"], "thorough": ["vsan"]}
+CFGS = {"quick": ["int64", "struct"], "thorough": ["int64", "struct", "noasm"]}
 BOTH = {"quick": ["prod", "vsan"], "thorough": ["prod", "vsan"]}
 
 TESTS = [
@@ -593,6 +594,9 @@ TESTS = [
          must_cover=["accept", "reject", "r>=p", "r_offcurve", "s>=n", "long_msg", "mut:honest", "mut:odd_y_twin", "mut:R_inf", "mut:bitflip_sig",
                      "mut:msg_tail", "mut:msg_trunc", "mut:other_key", "mut:s_neg", "pk_parse_reject"]),
     Test("verify_vsan", verify_case, run_verify, quick=400, thorough=15000, cfgs=VSAN, must_cover=["accept", "reject", "s>=n"]),
+    # the property quantifies over build configurations: the alternative limb configurations also run in the quick tier
+    Test("sign_cfg", sign_case, run_sign, quick=500, thorough=2000, cfgs=CFGS, max_workers=3, must_cover=["pk_odd", "len>1000"]),
+    Test("verify_cfg", verify_case, run_verify, quick=800, thorough=3000, cfgs=CFGS, max_workers=3, must_cover=["accept", "reject"]),
     Test("bitflips", flips_case, run_flips, quick=9, thorough=400, cfgs=BOTH, must_cover=["all_512_flips"]),
     Test("xonly_boundary", xonly_case, run_xonly, quick=1000, thorough=40000, cfgs=FULL, max_workers=3,
          must_cover=["x>=p", "x_on_curve", "x_off_curve", "reject"]),
